@@ -89,6 +89,14 @@ func apiProbe(t *tree, n *node) (blocked []string, results map[string]error) {
 		call("Cache.List", func() error { _, e := cr.List(); return e })
 		call("Cache.Get", func() error { _, e := cr.Get("aa", "aa"); return e })
 	}
+	switch {
+	case n.mon != nil:
+		call("Error", n.mon.Error)
+	case n.ctl != nil:
+		call("Error", n.ctl.Error)
+	case n.sub != nil:
+		call("Error", n.sub.Error)
+	}
 	call("Close", func() error { n.close(); return nil })
 	sched.Settle()
 	time.Sleep(time.Millisecond)
@@ -317,6 +325,13 @@ func runShutdown(c *Ctx, r *shutRun, full bool) {
 			}
 			for name, err := range results {
 				if name == "Close" {
+					continue
+				}
+				if name == "Error" {
+					// Error() must return; its value is pinned down (C14) for the
+					// controller only and checked there: a descendant that was
+					// caught half-way by a deliberate Close may report what it was
+					// doing ("parent ready: cache list: Not running")
 					continue
 				}
 				if err != nil && !errors.Is(err, kcache.ErrNotRunning) {
